@@ -70,6 +70,12 @@ async def process_resource_event(
     body = live_fresh_body if live_fresh_body is not None else bodies.Body(raw_body)
     patch = patches.Patch(memory.remaining_patch, body=body)
 
+    # The transformations carried over from a conflicted cycle can be already fulfilled by now
+    # (e.g. the finalizer was removed by the previous attempt). Do not let such a no-op leftover
+    # mark this cycle as "inconsistent" and thus skip the handlers without anything to wake it up.
+    if patch.fns and not dict(patch) and not patch.as_json_patch():
+        patch = patches.Patch(body=body)
+
     # Different loggers for different cases with different verbosity and exposure.
     local_logger = loggers.LocalObjectLogger(body=body, settings=settings)
     terse_logger = loggers.TerseObjectLogger(body=body, settings=settings)
